@@ -375,6 +375,47 @@ def equiv_work(payload):
         diff = sig_diff(s1, s2)
         if diff:
             res.violation("equiv:%s" % label, "variant '%s' differs from its expanded form in %s" % (label, diff), case)
+    # $include by FILE PATH: every ordered pair / triple of cards that include the same file (with and without local
+    # overrides of an included particle) loaded in one process; each load must equal its expanded form
+    import os
+    import tempfile
+
+    import yaml
+
+    inc_cards = [(l, e, v, sh) for l, e, v, sh in variants() if l.startswith("include:") and l != "include:list"]
+    tmpd = tempfile.mkdtemp(prefix="c19inc_", dir=os.environ.get("VERIF_TMP") or None)
+    path = os.path.join(tmpd, "res.yml")
+    with open(path, "w") as f:
+        yaml.safe_dump(inc_cards[0][3]["res.yml"], f)
+    expanded = {}
+    for l, e, v, sh in inc_cards:
+        c1, a1 = _load(copy.deepcopy(e))
+        expanded[l] = signature(c1, a1)
+    seqs = list(itertools.permutations(range(len(inc_cards)), 2)) + [(i, i) for i in range(len(inc_cards))]
+    if payload["tier"] == "thorough":
+        seqs += list(itertools.permutations(range(len(inc_cards)), 3))
+    for seq in seqs:
+        for pos, i in enumerate(seq):
+            l, e, v, sh = inc_cards[i]
+            v = copy.deepcopy(v)
+            v["particle"]["$include"] = path
+            case = {"part": "equiv", "label": "include-file", "seq": [inc_cards[j][0] for j in seq]}
+            try:
+                c2, a2 = _load(v)
+                diff = sig_diff(expanded[l], signature(c2, a2))
+            except Exception as ex:
+                res.violation("equiv:include-file:exception", "loading %s (file include) after %r raised %s: %s" % (l, [inc_cards[j][0] for j in seq[:pos]], type(ex).__name__, str(ex)[:160]), case)
+                break
+            res.case(nontrivial_key=("include-file", seq, pos), outcome="include-file")
+            if diff:
+                res.violation("equiv:include-file|%s" % ("first-load" if pos == 0 else "after-other-card"), "card %s ($include by file path) loaded after %r differs from its expanded form in %s" % (l, [inc_cards[j][0] for j in seq[:pos]], diff), case)
+                break
+    with open(path) as f:
+        if yaml.safe_load(f) != inc_cards[0][3]["res.yml"]:
+            res.violation("equiv:include-file:file-modified", "the included file was modified by loading", {"part": "equiv", "label": "include-file"})
+    import shutil
+
+    shutil.rmtree(tmpd, ignore_errors=True)
     # key-order permutations of `particle` and `decay` (cards with <= 4 keys each besides $top/$finals)
     base = base3(jR=(1, 1))
     c0, a0 = _load(copy.deepcopy(base))
